@@ -23,6 +23,28 @@ CLAIMS = {
         "Trusts CPython's struct semantics and the analyser; idioms other than struct.unpack/unpack_from/int.from_bytes "
         "yield exit 2 (analysis error), never a verdict.",
         "DESIGN.md §4 C01"),
+    "C02": (
+        "symbolic interpretation of parse_v2 / set_thread_map (reads, exits, yields, effects with order) + construct layout "
+        "evaluation of the header into size classes",
+        "Decides structural clauses: the record loop performs exactly one read(64) per iteration whose non-empty result is "
+        "yielded unmodified and unconditionally through from_kd_buf and whose emptiness is the only exit (so m records give m "
+        "events in order for any record bytes); the thread-map entry layout and count; clear-then-fill of the shared tables "
+        "without rebinding, later entry winning. The header size-class rule reports the greedy zero skipper `_pad` as a known "
+        "finding (genuine: it eats leading zero bytes of the first record).",
+        "The absolute layout of the 0x11c header bytes before the thread map is not decided; construct's documented sizes are "
+        "trusted.",
+        "DESIGN.md §4 C02"),
+    "C03": (
+        "symbolic interpretation of parse_v3: loop structure, exit conditions, yield order, tag-dispatch effects mapped to "
+        "module constants, accumulate-vs-overwrite classification",
+        "Decides structural clauses: one unconditional from_kd_buf(read(64)) yield in a loop over chunk_size // 64 inside a "
+        "chunk loop left exactly when the next 8 bytes are not MORE_EVENTS; thread map installed before the first event; logs "
+        "after all events; every TRACEV3_* constant either used by the scan or dispatched to the state of its name; "
+        "list-valued sections accumulate and all are reset per parse; log records decoded in order with the inverted string "
+        "index and the guarded table extension.",
+        "Agreement of the tag scan with real stackshot contents, the seek(-8,1) rewind and the Select fallback depend on file "
+        "bytes and are not decided.",
+        "DESIGN.md §4 C03"),
     "C04": (
         "effect-contract analysis of the pairing state machine: symbolic effects with path conditions, loop membership and "
         "statement order, return-term matching against re-derived parse_event_list terms",
@@ -44,6 +66,16 @@ CLAIMS = {
         "The by-design tables (threads_pids, pids_names, global_strings, tids_names, dyld_*) are excluded by the property's own "
         "quantifier; they are frozen in the rule with reasons.",
         "DESIGN.md §4 C05"),
+    "C06": (
+        "loop-exit classification for every stream-reading loop (E1 empty-read test, E2 comparison against a non-empty "
+        "constant, E3 strict-size decoder / EOF-raising callee), raw-read provenance of from_kd_buf arguments, laziness of the "
+        "pipeline stages",
+        "Decides termination (every loop that reads the stream leaves it when read() returns b''; reads consume constant "
+        "positive sizes), no fabrication (from_kd_buf only ever receives the raw 64-byte read) and laziness (generator "
+        "functions and filter/map/generator-expression stages only, no materialisation or reordering; print_with_count tests "
+        "the count before printing). Prefix equality itself follows from laziness + determinism and is argued, not checked.",
+        "Read cost inside construct is trusted to be linear.",
+        "DESIGN.md §4 C06"),
     "C07": (
         "enumeration of partial operations (table lookups, constant indexes into possibly-short lists, dereferences of "
         "possibly-None values) from symbolic interpretation, each discharged by guard reasoning over its path condition",
